@@ -6,6 +6,7 @@ import (
 	"go/constant"
 	"go/token"
 	"go/types"
+	"golang.org/x/tools/go/cfg"
 	"strings"
 )
 
@@ -61,6 +62,7 @@ func runC09(c *Ctx) {
 	}
 
 	checkPresencePredicate(r, p, pkg, info, methods)
+	checkStoredValueNonNil(r, p, pkg, info)
 
 	treeCall := func(name string) func(*ast.CallExpr) bool {
 		return func(c *ast.CallExpr) bool {
@@ -588,4 +590,78 @@ func checkPresencePredicate(r *Reporter, p *Prog, pkg string, info *types.Info, 
 	if nGets < 2 || nNil < 2 {
 		r.Fail("presence/one-predicate", pkg+".authenticatedMap", "-", fmt.Sprintf("expected tree.Get with a nil test in has() and Get(), found %d sites, %d nil-tested", nGets, nNil))
 	}
+}
+
+// checkStoredValueNonNil: absence is "tree.Get returned nil" (presence/one-predicate), so the
+// bytes handed to tree.Update must never be nil: an encoder that returns a nil slice for an
+// empty value would otherwise store a leaf that has()/Get() report as absent while Size and
+// Stream count it. On every path from the encoder call to tree.Update the value is either
+// tested against nil and replaced on the nil edge, or the nil edge does not reach the update.
+func checkStoredValueNonNil(r *Reporter, p *Prog, pkg string, info *types.Info) {
+	key := pkg + ".authenticatedMap.Set"
+	fd := p.FuncDecl(pkg, "authenticatedMap", "Set")
+	if fd == nil {
+		r.Unresolved("presence/stored-value-non-nil", key, "method not found")
+		return
+	}
+	f := newFuncCFG(p, info, fd.Body, key)
+	updates := f.Find(func(n ast.Node) bool {
+		cl, ok := n.(*ast.CallExpr)
+		return ok && strings.HasSuffix(exprKey(cl.Fun), ".tree.Update") && len(cl.Args) == 2
+	})
+	if len(updates) != 1 {
+		r.Fail("presence/stored-value-non-nil", key, p.posStr(fd.Pos()), fmt.Sprintf("expected one tree.Update, found %d", len(updates)))
+		return
+	}
+	var v types.Object
+	inspectNoLit(f.nodeAt(updates[0]), func(n ast.Node) bool {
+		if cl, ok := n.(*ast.CallExpr); ok && strings.HasSuffix(exprKey(cl.Fun), ".tree.Update") && len(cl.Args) == 2 {
+			v = objOfIdent(info, cl.Args[1])
+		}
+		return true
+	})
+	if v == nil {
+		r.Fail("presence/stored-value-non-nil", key, f.PosOf(updates[0]), "the value handed to tree.Update is not a plain variable: cannot establish that it is non-nil")
+		return
+	}
+	var nilEdges, nonNilEdges []Edge
+	f.forEachEdgeFact(func(e Edge, b *cfg.Block, ft fact) {
+		x, nonNilOnTrue, ok := nilTest(info, ft.Atom)
+		if !ok || objOfIdent(info, x) != v {
+			return
+		}
+		if nonNilOnTrue == ft.Pol {
+			nonNilEdges = append(nonNilEdges, e)
+		} else {
+			nilEdges = append(nilEdges, e)
+		}
+	})
+	if len(nilEdges) == 0 {
+		r.Fail("presence/stored-value-non-nil", key, f.PosOf(updates[0]), "the encoded value "+v.Name()+" reaches tree.Update without ever being compared with nil: a nil-encoded empty value is stored as a leaf that has() and Get() report as absent (Size drifts, Stream still lists the key)")
+		return
+	}
+	reassigns := func(n ast.Node) bool {
+		as, ok := n.(*ast.AssignStmt)
+		if !ok {
+			return false
+		}
+		for i, l := range as.Lhs {
+			if objOfIdent(info, l) == v && i < len(as.Rhs) && !isNil(info, as.Rhs[i]) {
+				return true
+			}
+		}
+		return false
+	}
+	for _, e := range nilEdges {
+		if w, found := f.reach(Point{e.From.Succs[e.Succ], 0}, &searchOpts{AvoidNode: reassigns}, func(pt Point, atExit bool) bool { return !atExit && pt == updates[0] }); found {
+			r.Fail("presence/stored-value-non-nil", key, f.PosOf(updates[0]), "tree.Update is reachable with "+v.Name()+" known to be nil: the stored leaf is indistinguishable from an absent key", w...)
+			return
+		}
+	}
+	// and the test is on every path to the update
+	if w, only := f.OnlyThroughEdges(updates[0], append(nilEdges, nonNilEdges...)); !only {
+		r.Fail("presence/stored-value-non-nil", key, f.PosOf(updates[0]), "a path reaches tree.Update without passing the nil test of "+v.Name(), w...)
+		return
+	}
+	r.Pass("presence/stored-value-non-nil", key, f.PosOf(updates[0]), "the value is nil-tested on every path and replaced by a non-nil slice on the nil edge before tree.Update")
 }
